@@ -546,6 +546,7 @@ def family_c01(tier, seed):
         # three complete words before the cursor on the hand-made shapes and the smallest trees
         fams.append(('shapes, K=3', shapes, 3))
         fams.append(('exhaustive<=3, K=3', gram.exhaustive_family(3), 3))
+    fams.append(glob_family())
     return fams
 
 
@@ -597,6 +598,8 @@ def run_e2(prop, tier, seed, families, K, configs, allow_regions=(), max_paths=6
                  'allow_regions': allow_regions, 'cross_every': 97 if len(jobs) % 9 == 0 else 0}
             if extra:
                 j.update(extra)
+            if len(fam) > 3:
+                j.update(fam[3])
             jobs.append(j)
     results = pool_map(e2.analyse, jobs, chunksize=1)
     status = {}
@@ -663,7 +666,7 @@ def run_e2(prop, tier, seed, families, K, configs, allow_regions=(), max_paths=6
         'slowest_programs': sorted(((r.get('elapsed_s', 0), r['text']) for r in results), reverse=True)[:5],
         'programs_not_explored_to_the_end_within_budget': over_budget,
         'bounds': {'complete_words_K': '0..%d (families tagged K=3: 0..3)' % K, 'word_length_L': '<= 1 + the longest of: vocabulary items, command candidates, loop-free words of every within-word expression; capped at 12 (max seen %s)' % bounds.get('max_L'),
-                   'alphabet': 'characters of the vocabulary and command outputs plus z = : (no glob metacharacters)',
+                   'alphabet': 'characters of the vocabulary and command outputs plus z = : ; the family "typed words containing * and ?" adds * and ? (no [ or backslash in typed words)',
                    'COMP_WORDBREAKS': configs},
         'paths': paths,
         'solver_queries': queries,
@@ -683,7 +686,7 @@ def run_e2(prop, tier, seed, families, K, configs, allow_regions=(), max_paths=6
         'bind -v modelled as completion-ignore-case off',
         'external commands are probes with fixed output (cgvprobe ID "$1" "$2")',
         'sort -nrk2,2 -rk3 and cut -f1 -d" " modelled on concrete data; LC_ALL=C',
-        'words contain no glob metacharacters at the sites where the script uses a word as an unquoted pattern',
+        'outside the family "typed words containing * and ?" typed words contain no glob metacharacters; in that family an unquoted use of a typed word as a pattern is followed as the glob it is; [ and backslash never occur in typed symbolic words (they do in the concretely typed vocabulary)',
         'a candidate identical to the text already typed is neither required nor forbidden',
         'the interpreter is validated against the real bash on the witnesses of sampled paths in every run',
     ]
@@ -778,7 +781,23 @@ def family_c07(tier, seed):
         # the region query filters the rest)
         out.append(gram.mk('cmd', S(Sub(L('o='), A(*[L(x) for x in chunk])), L('end'))))
     out.append(gram.mk('cmd', S(L('a*', 'descr "quoted" $x `y` \\'), L('end', "it's"))))
-    return [('special-character vocabulary', out)]
+    return [('special-character vocabulary', out), glob_family()]
+
+
+def glob_family():
+    """typed words over an alphabet with * and ?: wherever the script used a typed word as an unquoted pattern, the
+    interpreter would follow the glob (cgv/bashsym.py unquoted_tokens)"""
+    L, S, A, Sub, Opt, Cmd, Many = gram.Lit, gram.Seq, gram.Alt, gram.Sub, gram.Opt, gram.Cmd, gram.Many
+    c1 = Cmd(probe('c1'))
+    out = [gram.mk('cmd', S(A(L('ab'), L('a*')), L('end'))),
+           gram.mk('cmd', S(Sub(L('o='), A(L('ab'), L('cd'))), L('end'))),
+           gram.mk('cmd', S(Sub(L('o='), c1), L('end'))),
+           gram.mk('cmd', S(A(c1, L('x*y')), Opt(L('end')))),
+           gram.mk('cmd', S(A(L('a:*b'), L('a:?c')), L('end'))),
+           gram.mk('cmd', S(Sub(L('k='), A(L('*x'), L('?y'))), L('end'))),
+           gram.mk('cmd', S(Many(A(L('a?'), L('ab'))), L('end'))),
+           gram.mk('cmd', S(Sub(L('p'), A(L('?'), L('q')), L('b')), Opt(c1)))]
+    return ('typed words containing * and ?', out, 2, {'glob_words': True, 'concrete_vocab_cases': True})
 
 
 def check_C07(tier, seed):
@@ -856,8 +875,8 @@ def check_C07(tier, seed):
     rep.assumptions += ['non-ASCII text is outside the E1 bound (the escapers replace ASCII characters only)',
                         'history expansion (!) is off in a sourced non-interactive bash/zsh script',
                         'which characters can reach a constant is taken from the documented lexer, which is not verified (C05 n/a)',
-                        'words typed by the user contain no glob metacharacters or backslashes in the symbolic part; literals made of such '
-                        'characters are additionally exercised as themselves (concretely) in the real bash']
+                        'words typed by the user contain no [ or backslash in the symbolic part (and * and ? only in the family "typed words '
+                        'containing * and ?"); literals made of such characters are additionally exercised as themselves (concretely) in the real bash']
     rep.t0 = t0
     return rep
 
